@@ -39,8 +39,13 @@ pub fn lines_of_records(recs: &[Rec], lay: &Layout) -> Vec<Vec<u8>> {
         }
         if lay.fastq {
             lines.push(b"+".to_vec());
-            for c in &chunks {
-                lines.push(vec![b'I'; c.len()]);
+            for (ci, c) in chunks.iter().enumerate() {
+                // quality strings may begin with '@', '>' or '+' (all are legal quality characters)
+                let mut q = vec![b'I'; c.len()];
+                if !q.is_empty() {
+                    q[0] = [b'I', b'@', b'>', b'+', b'#'][(r.seq.len() + ci) % 5];
+                }
+                lines.push(q);
             }
         }
     }
